@@ -7,6 +7,7 @@ from pyvc.unit import unit
 
 ANA = S.ANA
 META = {
+    "technique": 'contract-based deductive verification: symbolic execution of the real functions against sidecar contracts (z3/cvc5) for the proved units; bounded contract evaluation (enumerated scope / independent writer) for the rest',
     "level": "other",
     "partial": True,
     "level_text": "Bounded (2-run contract on the real Analysis): for every enumerated world the canonical view (classes, methods, "
